@@ -48,7 +48,7 @@ def table_specs(draw, classes=CLASSES):
     collide = False
     if nf >= 2 and draw(st.booleans()):
         # an outer element that is also a valid field-wise key (prefix or full)
-        ln = draw(st.integers(2, nf))
+        ln = draw(st.integers(1, nf))      # (ln = 1: a one-element tuple wrapping another outer element)
         comp = tuple(doms[f][draw(st.integers(0, len(doms[f]) - 1))] for f in range(ln))
         if comp not in doms[0] and len(doms[0]) < 5:
             doms[0].append(comp)
@@ -320,6 +320,30 @@ def prop_probrows(spec, ctx):
                       "C12.probrow_items", lambda: f"{what} {key!r}: {list(row.items())}")
             ctx.check(len(row) == len(doms[-1]), "C12.probrow_len")
             ctx.check([float(x) for x in row.values()] == [float(x) for x in want], "C12.probrow_values")
+    if spec["cls"] == "TabularPolicy":
+        # the policy's own entry point for a row: a key outside the state domain raises the state/action index error -
+        # foreign atoms, and tuples put together from state labels that are neither a state nor a (state, action) pair
+        from msdm.core.mdp.tables import StateActionIndexError
+        allelems = set(e for d in doms for e in d)
+        cands = [x for x in FOREIGN if not any(x == e for e in allelems)]
+        # (assembled from non-tuple labels only: a tuple *inside* a key is a multi-selector, which the statement does not cover)
+        st_ = [e for e in doms[0] if not isinstance(e, (tuple, list))] or [FOREIGN[0]]
+        cands += [tuple(st_) + (st_[0],), tuple(st_[::-1]) + (st_[0], st_[0]), (st_[0], st_[-1], st_[0])]
+        cands += [(a, b) for a in st_[:2] for b in st_[-2:] if not any(b == e for e in doms[1])]
+        for x in cands:
+            if any(x == e for e in doms[0]) or (isinstance(x, tuple) and len(x) <= 2 and (len(x) < 2 or any(x[1] == e for e in doms[1]))):
+                continue
+            try:
+                v = t.action_dist(x)
+            except StateActionIndexError:
+                ctx.assert_counts["C12.action_dist_foreign_key_raises"] += 1
+                continue
+            except BaseException as e:  # DomainError derives from BaseException
+                if isinstance(e, (KeyboardInterrupt, SystemExit, MemoryError)):
+                    raise
+                ctx.viol("C12.foreign_key_state_action_index_error", f"action_dist({x!r}): raised {type(e).__name__} instead of StateActionIndexError")
+                continue
+            ctx.viol("C12.action_dist_foreign_key_raises", f"action_dist({x!r}) with states {doms[0]!r}: returned {v!r} instead of raising")
     ctx.nontrivial(len(doms[-1]) >= 2)
 
 
